@@ -1,6 +1,7 @@
 package sim
 
 import (
+	"os"
 	"crypto/sha256"
 	"encoding/hex"
 	"fmt"
@@ -106,6 +107,9 @@ func Protect(f func()) (out Outcome) {
 				site, lib := panicSite(string(debug.Stack()))
 				if lib {
 					out = Outcome{Status: "violation", Oracle: "panic", Msg: fmt.Sprintf("%v | %s", x, site)}
+					if os.Getenv("VERIF_DEBUG") != "" {
+						fmt.Fprintf(os.Stderr, "%s\n", debug.Stack())
+					}
 				} else {
 					out = Outcome{Status: "harness", Msg: fmt.Sprintf("%v | %s\n%s", x, site, debug.Stack())}
 				}
